@@ -120,6 +120,7 @@ Definition dec_ev (v : value) : option StEvent :=
   | VL [VS "DelDel"; VS k] => Some (EvDelDel k)
   | VL [VS "Bal"; VS a; VZ d] => Some (EvBal a d)
   | VL [VS "Fail"] => Some EvFail
+  | VL [VS "ResetPG"] => Some EvPgZero
   | _ => None
   end.
 
